@@ -12,6 +12,18 @@ def _c(text, ref):
 
 
 CLAIMS = {
+    "C18": _c("Bounded symbolic model checking of get_introspection_query / introspection execution / build_client_schema over two "
+              "schema families (256 SDL variants, 64 programmatic variants with adversarial strings and Python-valued defaults): "
+              "every one of the 128 option combinations (solver-forked mask) must validate, execute without errors and equal the "
+              "full-options result minus exactly what the switched-off options omit (projection oracle written from the options' "
+              "documented meaning); the client schema built from the full result prints identically, shows no differences, "
+              "introspects to the same result, and __type(name:) lookups agree with the type list.", "DESIGN.md section 7, C18"),
+    "C17": _c("Bounded symbolic model checking of print_schema -> build_schema: description and deprecation-reason text as symbolic "
+              "strings over all Unicode scalar values (0..2 code points, 3 in thorough) in five positions through the real printer, "
+              "lexer and schema builder; all 512 combinations of 9 optional schema parts; a programmatic schema with 20 adversarial "
+              "strings x 6 reasons x 4 default-value shapes (Python values incl. explicit None and the Int minimum). Assertions: "
+              "the rebuilt schema is valid, prints identically, shows no differences either way and keeps the order.",
+              "DESIGN.md section 7, C17"),
     "C12": _c("Bounded symbolic model checking of the real validate(): 18 documents (valid, near-valid, ill-typed) x every pair of the "
               "specified rules in both orders, all rules vs the union of the singletons, every all-but-one subset, every rotation "
               "of the rule list, repetition and non-mutation of document and schema, four layout rewrites (reprint, strip, added "
